@@ -207,6 +207,10 @@ def run(ctx):
             dist["generator"] = gen.dist
             nth_check(ctx, hl, nth_sample, dist)
             cli_check(ctx, hl, dist, cov)
+        else:
+            rep = json.load(open(ctx.replay))
+            if rep["case"].get("origin") == "cli":
+                cli_check(ctx, hl, dist, cov, only=unhx(rep["case"]["expr_hex"]))
     cov["distribution"] = dist
     cov["traces_validated_against_impl"] = cov["evaluations"]
     for b in ctx.broken[:4]:
@@ -258,7 +262,7 @@ def nth_check(ctx, hl, cases, dist):
                              (q[:k + 1][-2:], ans[k:k + 1], mm[k:k + 1], (crash or "")[-300:]), {"ops": q})
 
 
-def cli_check(ctx, hl, dist, cov):
+def cli_check(ctx, hl, dist, cov, only=None):
     """the pdsh binary: -Q listing and the hosts actually contacted, against expand₂"""
     rng = ctx.rng
     cli = Cli(ctx)
@@ -268,9 +272,9 @@ def cli_check(ctx, hl, dist, cov):
     n = 70 if ctx.quick() else 1500
     cases = []
     fixed = [b"foo[1-2]-[0-1]", b"foo[9-11,007]-[0-1] 12 a3", b"n[08-11]", b"a[1-3],a[2-4]", b"foo1,foo01,foo001"]
-    for s in fixed:
+    for s in ([only] if only is not None else fixed):
         cases.append((s, None))
-    while len(cases) < n:
+    while len(cases) < n and only is None:
         words, s = gen.expr()
         e2 = expand2(words)
         if len(s) > 3000 or sum(len(x) + 1 for x in e2) > 900 or any(len(x) > 200 for x in e2):
